@@ -25,6 +25,16 @@ CHECKS = {
             "The single-result call is compared field by field with the stream under identical arguments and scorers; score finiteness and the strictly-better re-emission rule are checked on every stream.",
             "Assumes the parser is deterministic for a seeded scorer (which C12 checks).",
             "DESIGN.md 4 (C14)"),
+    "C16": ("exploration",
+            "Hypothesis-generated training corpora and queries; differential against a 25-line textbook multinomial NB reference; score composition recomputed from model tables via a recording scorer; save/load round-trip",
+            "predict_log_proba of the fitted pipeline is compared with an independent Counter-based Laplace-smoothed multinomial NB over 1-3-grams for generated corpora (class balance, empty/unseen/repeated tokens); every score()/score_final() call made while parsing bundled corpus expressions under the shipped model is recomputed from the model tables and the covered share; persistence round-trips.",
+            "Tokens contain no blanks; tolerances stated in the evidence.",
+            "DESIGN.md 4 (C16)"),
+    "C17": ("exploration",
+            "Differential: dataset builders vs a sample list rebuilt from an independent candidate stream with value-equality labels (generated gold objects of all three kinds, random spans, perturbed values, dataset golds); metamorphic monotonicity of retrained log-odds under duplicated positives (Hypothesis training sets)",
+            "make_partial_rule_dataset and run_corpus outputs are compared as lists with the samples the property prescribes, for entries of all bundled corpora and generated gold values; retraining with k extra copies of a positive example must not lower its log-odds (a theorem for correct Laplace-smoothed NB).",
+            "Uses ctparse_gen itself to obtain the candidate stream (its correctness is the subject of C14/C15, not of C17).",
+            "DESIGN.md 4 (C17)"),
     "C18": ("exploration",
             "Hypothesis-generated pairs of resolutions + all dataset gold strings against a field-tuple equality oracle; round-trip of the bound-free text form",
             "Property-based search over generated pairs of Time/Interval/Duration objects (span-only copies, all single-field edits, independent draws, cross-kind) decides ==, hash and nb_str against an oracle computed from the generated field tuples; every gold string of the bundled dataset is round-tripped. Sampling, not proof: the Time field space is 10^13 values, single-field edits are enumerated per drawn base value.",
